@@ -20,7 +20,7 @@ ASSUMPTIONS = ["enharmonic spelling of transposed keys is free (tonic pitch clas
                "when notes are octave-wrapped the library additionally normalises and re-quantises note lengths; only range, "
                "image-of-original and the flag are checked then (as the statement says)"]
 TIERS = {"quick": dict(shards=8, examples=2000, alt_ppqn=[480], alt_shards=2),
-         "thorough": dict(shards=16, examples=20000, alt_ppqn=[480, 7, 1000], alt_shards=4)}
+         "thorough": dict(fuzz_runs=20000, fuzz_shards=4, shards=16, examples=20000, alt_ppqn=[480, 7, 1000], alt_shards=2)}
 
 INTERVALS = [0, 1, -1, 5, -5, 7, -7, 12, -12, 24, -24, 88, -88, 100, -100, 127, -127, 36, -36]
 
